@@ -312,6 +312,39 @@ func runArchive(c *ctx) error {
 		}
 		ta.Emit(hx.J{"a": "Burst", "ok": ok, "statuses": statuses, "n200": n200, "rate_us": int(consts["apiArchiveRateMs"] * 1000), "limit": int(consts["apiArchiveLimit"])})
 	}
+	// paced requests: one opens a window, the rest of the allowance comes late in it, a burst follows just
+	// after the first request has aged out: the window slides, it is not restarted as a whole
+	{
+		rate := time.Duration(consts["apiArchiveRateMs"]) * time.Millisecond
+		limit := int(consts["apiArchiveLimit"])
+		for round := 0; round < 4; round++ {
+			time.Sleep(rate + 20*time.Millisecond)
+			base := time.Now()
+			ok := [][]int{}
+			statuses := []int{}
+			get := func() {
+				b := time.Since(base).Microseconds()
+				st, _ := s.Get("/api/v1/archive")
+				af := time.Since(base).Microseconds()
+				statuses = append(statuses, st)
+				if st == 200 {
+					ok = append(ok, []int{int(b), int(af)})
+				}
+			}
+			get()
+			time.Sleep(rate * 6 / 10)
+			for k := 1; k < limit; k++ {
+				get()
+			}
+			if d := rate + 2*time.Millisecond - time.Since(base); d > 0 {
+				time.Sleep(d)
+			}
+			for k := 0; k < limit; k++ {
+				get()
+			}
+			ta.Emit(hx.J{"a": "Burst", "ok": ok, "statuses": statuses, "n200": len(ok), "rate_us": int(rate.Microseconds()), "limit": limit})
+		}
+	}
 	s.Close()
 	c.summary["events"] = ta.Events
 	c.summary["counts"] = ta.Counts
